@@ -278,7 +278,7 @@ func runC12(rep Rep, w World) {
 
 var c12Opts = func() worldOpts {
 	o := histOpts
-	o.constructed = 0 // reachable states only: everything comes from legitimate transitions ...
+	o.constructed = 0     // reachable states only: everything comes from legitimate transitions ...
 	o.heldRollouts = true // ... plus the one constructed shape that is plainly reachable: a rollout held by its partition
 	o.eventMode = true
 	w := opWeights{}
